@@ -32,6 +32,18 @@
 //         three pairwise different wire messages, none containing the base-62 digits of v or v + 2^256 (>= 24 digits);
 //         control: the unencrypted wire does contain the digits.
 //
+//  wenv   WRITE side of the environment.  write(2) is defined in this executable (link-time interposition; forwarded
+//         with syscall(SYS_write) for every fd that is not the sender's channel fd or when no script is active).  For
+//         every class x mode and exchanges of 1 and 2 integers, the answer of the environment at EVERY write call the
+//         sender makes on the channel fd is enumerated, deviation-bounded: default = full write; deviations = short write
+//         of k in {1, 2, len/2, len-1} bytes (k bytes are really written), EAGAIN, EINTR, EWOULDBLOCK (nothing written).
+//         Both tiers (the space is small): every single deviation at every write index and every ordered pair (the
+//         second index ranges over the write calls of the run with the first deviation); --wsingle: singles only; plus the patterns "every write is cut to 1 byte"
+//         and "every second write call answers EAGAIN".  Oracle: if every Send returned true, the wire captured at
+//         the far end equals the wire of the deviation-free run byte for byte and a fresh receiver (whole relay, until
+//         quiescence) delivers exactly the sent integers in order; if a Send returned false, what is delivered is a
+//         prefix of the sent integers that contains every integer whose Send returned true (nothing spurious).
+//         time()/sleep() are virtual: the polling class sleeps 1 virtual second per EAGAIN; Send is given 30 s.
 // Bounds: quick = single cuts for every exchange, pairs for the 1- and 2-message exchanges; thorough = pairs for
 // every exchange except the maximal-size value (single cuts only, ~2.8 kB wire).  Everything enumerated, nothing sampled.
 // Maximal size: per (class, mode) the largest digit count k for which Send accepts 62^k-1 in exactly that mode is found
@@ -45,6 +57,9 @@
 #include <fcntl.h>
 #include <signal.h>
 #include <sys/ioctl.h>
+#include <sys/syscall.h>
+#include <errno.h>
+#include <set>
 #include <algorithm>
 #include <unordered_set>
 #include <functional>
@@ -129,6 +144,48 @@ static void put(int fd, const char *p, size_t n)
 		if (k <= 0) die("relay write failed");
 		p += k, n -= (size_t)k;
 	}
+}
+
+// ------------------------------------------------------------------------------------------------ write-side environment
+// write(2) as seen by the statically linked library objects (and by this driver).  Only calls on WS.fd while a script is
+// active are answered by the script; everything else goes straight to the kernel.
+enum { W_FULL = 0, W_S1, W_S2, W_SHALF, W_SLM1, W_EAGAIN, W_EINTR, W_EWOULDBLOCK, W_NDEV };
+static const char *WDEV_NAME[] = { "full", "s1", "s2", "shalf", "slm1", "eagain", "eintr", "ewouldblock" };
+struct WScript {
+	bool active;
+	int fd, pattern;                 // pattern 0: deviations by call index; 1: every write cut to 1 byte; 2: every second call EAGAIN
+	std::map<size_t, int> dev;
+	size_t calls, applied;
+	bool runaway;
+	std::vector<size_t> lens;        // requested length of every call
+	Hs trace;                        // realized (requested length, answer) sequence
+	WScript() : active(false), fd(-1), pattern(0), calls(0), applied(0), runaway(false) {}
+};
+static WScript WS;
+// the byte count a short-write deviation returns for a request of n bytes (0 = not applicable)
+static size_t wdev_k(int d, size_t n)
+{
+	size_t k = d == W_S1 ? 1 : d == W_S2 ? 2 : d == W_SHALF ? n / 2 : d == W_SLM1 ? n - 1 : 0;
+	return (k > 0 && k < n) ? k : 0;
+}
+extern "C" ssize_t write(int fd, const void *buf, size_t n)
+{
+	if (!WS.active || fd != WS.fd)
+		return syscall(SYS_write, fd, buf, n);
+	size_t idx = WS.calls++;
+	if (WS.calls > 5000) { WS.runaway = true; errno = EPIPE; return -1; }   // a write loop that does not terminate
+	WS.lens.push_back(n);
+	int d = W_FULL;
+	if (WS.pattern == 1) d = W_S1;
+	else if (WS.pattern == 2) d = (idx & 1) ? W_EAGAIN : W_FULL;
+	else { std::map<size_t, int>::iterator it = WS.dev.find(idx); if (it != WS.dev.end()) d = it->second; }
+	int err = d == W_EAGAIN ? EAGAIN : d == W_EINTR ? EINTR : d == W_EWOULDBLOCK ? EWOULDBLOCK : 0;
+	size_t k = n;
+	if (!err && d != W_FULL) { k = wdev_k(d, n); if (k == 0) k = n, d = W_FULL; }
+	if (d != W_FULL) WS.applied++;
+	WS.trace.u(n), WS.trace.u(err ? 100000 + err : k);
+	if (err) { errno = err; return -1; }
+	return syscall(SYS_write, fd, buf, k);
 }
 
 // ------------------------------------------------------------------------------------------------ configuration space
@@ -902,6 +959,156 @@ template<class AIO> static void add_conf_cells(const Mode *modes, size_t nmodes)
 	}
 }
 
+// ---------------------------------------------------------------- part wenv: the environment's answers to the sender's writes
+static int64_t CLOCK0;
+struct WRun { std::vector<bool> ok; std::string wire; size_t calls, applied; bool runaway; std::vector<size_t> lens; uint64_t trace; };
+
+template<class AIO> static WRun wenv_send(const Mode &m, const Exchange &ex, int pattern, const std::map<size_t, int> &dev)
+{
+	Pool &P = pools[Tr<AIO>::pool()];
+	mcenv::set_clock(CLOCK0);
+	mcenv::CoinSource cs(SEED, 60);
+	slurp(P.cap_r[0]);
+	AIO *s = make<AIO>(2, 0, m, aiounicast::aio_scheduler_roundrobin, &cs);
+	WS = WScript();
+	WS.fd = P.cap_w[0], WS.pattern = pattern, WS.dev = dev, WS.active = true;
+	WRun r;
+	for (size_t it = 0; it < ex.size(); it++)
+	{
+		mpz_t z;
+		mpz_init_set_str(z, ex[it].vals[0].c_str(), 10);
+		bool ok = s->Send(z, 1, aiounicast::aio_timeout_middle);
+		mpz_clear(z);
+		r.ok.push_back(ok);
+		if (!ok) break;   // the application stops using the link after a failed Send
+	}
+	WS.active = false;
+	r.wire = slurp(P.cap_r[0]);
+	r.calls = WS.calls, r.applied = WS.applied, r.runaway = WS.runaway, r.lens = WS.lens, r.trace = WS.trace.fin();
+	delete s;
+	mcenv::cur = NULL;
+	mcenv::set_clock(CLOCK0);
+	return r;
+}
+
+static std::vector<int> wdevs_for(size_t len)
+{
+	std::vector<int> out;
+	std::set<size_t> ks;
+	for (int d = W_S1; d <= W_SLM1; d++)
+	{
+		size_t k = wdev_k(d, len);
+		if (k && ks.insert(k).second) out.push_back(d);
+	}
+	out.push_back(W_EAGAIN), out.push_back(W_EINTR), out.push_back(W_EWOULDBLOCK);
+	return out;
+}
+
+template<class AIO> static void wenv_cell(const Cell &C, const Mode &m, const Exchange &ex, bool pairs)
+{
+	const std::string kbase = std::string("c13/wenv/") + Tr<AIO>::name() + "/" + m.name + "/";
+	std::map<size_t, int> none;
+	WRun base = wenv_send<AIO>(m, ex, 0, none);
+	std::set<std::string> images;
+	std::unordered_set<uint64_t> traces;
+	uint64_t schedules = 0, calls = 0, send_false = 0;
+	auto judge = [&](const std::string &cid, const WRun &r, const std::string &what)
+	{
+		schedules++, calls += r.calls, TOTAL_TRANS += r.calls;
+		R->ok(r.applied > 0 && traces.insert(r.trace).second && !DUP);
+		bool allok = r.ok.size() == ex.size();
+		size_t nsucc = 0;
+		for (size_t i = 0; i < r.ok.size(); i++) if (r.ok[i]) nsucc++; else allok = false;
+		std::string ctx = "sent " + show(ex) + " under write schedule " + what + " (" + str(r.calls) + " write calls, Send returned";
+		for (size_t i = 0; i < r.ok.size(); i++) ctx += r.ok[i] ? " true" : " false";
+		ctx += ")";
+		if (r.runaway)
+			report(kbase + "runaway-write-loop", ctx + ": more than 5000 write calls", cid);
+		if (allok)
+		{
+			images.insert(r.wire);
+			if (r.wire != base.wire)
+			{
+				size_t o = 0;
+				while (o < r.wire.size() && o < base.wire.size() && r.wire[o] == base.wire[o]) o++;
+				report(kbase + "wire-differs", ctx + ": wire has " + str(r.wire.size()) + " bytes, deviation-free wire " + str(base.wire.size()) + ", first difference at offset " + str(o) +
+					"; wire=" + hex(r.wire, 120) + " expected=" + hex(base.wire, 120), cid);
+			}
+		}
+		else send_false++;
+		Rx<AIO> rx(2, m, aiounicast::aio_scheduler_roundrobin, &ex);
+		rx.relay(0, r.wire.data(), r.wire.size()), rx.quiesce();
+		bool prefix = rx.got.size() <= ex.size();
+		for (size_t i = 0; i < rx.got.size() && prefix; i++) if (rx.got[i].vals != ex[i].vals || rx.got[i].from != 0) prefix = false;
+		if (!prefix)
+			report(kbase + "delivered-changed-or-spurious", ctx + ": delivered " + show(rx.got), cid);
+		else if (rx.got.size() < nsucc)
+			report(kbase + "accepted-not-delivered", ctx + ": delivered " + show(rx.got), cid);
+	};
+	if (base.applied != 0 || base.ok.size() != ex.size()) die("wenv: deviation-free run is not deviation free");
+	if (R->selected(C.id + "/-")) judge(C.id + "/-", base, "default");
+	const std::string &only = R->args.only;
+	for (size_t i = 0; i < base.lens.size(); i++)
+	{
+		std::vector<int> d1s = wdevs_for(base.lens[i]);
+		for (size_t a = 0; a < d1s.size(); a++)
+		{
+			std::string id1 = C.id + "/" + str(i) + ":" + WDEV_NAME[d1s[a]];
+			bool want_pairs = pairs && (only.empty() || only.compare(0, id1.size() + 1, id1 + ",") == 0);
+			if (!R->selected(id1) && !want_pairs) continue;
+			std::map<size_t, int> dv; dv[i] = d1s[a];
+			WRun r1 = wenv_send<AIO>(m, ex, 0, dv);
+			if (R->selected(id1)) judge(id1, r1, str(i) + ":" + WDEV_NAME[d1s[a]]);
+			if (!want_pairs) continue;
+			for (size_t j = i + 1; j < r1.lens.size(); j++)
+			{
+				std::vector<int> d2s = wdevs_for(r1.lens[j]);
+				for (size_t b = 0; b < d2s.size(); b++)
+				{
+					std::string id2 = id1 + "," + str(j) + ":" + WDEV_NAME[d2s[b]];
+					if (!R->selected(id2)) continue;
+					std::map<size_t, int> dv2 = dv; dv2[j] = d2s[b];
+					WRun r2 = wenv_send<AIO>(m, ex, 0, dv2);
+					judge(id2, r2, str(i) + ":" + WDEV_NAME[d1s[a]] + "," + str(j) + ":" + WDEV_NAME[d2s[b]]);
+				}
+			}
+		}
+	}
+	const char *pn[] = { "", "all1", "alt-eagain" };
+	for (int pat = 1; pat <= 2; pat++)
+		if (R->selected(C.id + "/" + pn[pat])) { WRun r = wenv_send<AIO>(m, ex, pat, none); judge(C.id + "/" + pn[pat], r, pn[pat]); }
+	R->counters["wenv_exchanges"]++;
+	R->counters["wenv_distinct_wire_images"] += images.size();
+	R->counters["wenv_schedules"] += schedules;
+	R->counters["wenv_write_calls_seen"] += calls;
+	R->counters["wenv_runs_with_a_send_returning_false"] += send_false;
+	std::string lens;
+	for (size_t i = 0; i < base.lens.size(); i++) lens += (i ? "+" : "") + str(base.lens[i]);
+	R->sample(C.id + "/0:s1", "sent " + show(ex) + ": " + str(base.lens.size()) + " write calls (" + lens + " bytes) in the deviation-free run; " + str(schedules) +
+		" write schedules (" + (pairs ? "pairs" : "single deviations") + " + 2 patterns), " + str(images.size()) + " distinct wire image(s)");
+}
+
+template<class AIO> static void add_wenv_cells(const Mode *modes, size_t nmodes, bool thorough)
+{
+	for (size_t mi = 0; mi < nmodes; mi++)
+	{
+		const Mode m = modes[mi];
+		const char *names[2] = { "w1", "w2" };
+		Exchange exs[2] = { singles({ V_B }), singles({ "61", V_A }) };
+		for (int xi = 0; xi < 2; xi++)
+		{
+			Cell C;
+			C.id = std::string("w/") + Tr<AIO>::name() + "/" + m.name + "/" + names[xi];
+			size_t nw = (xi + 1) * (1 + (m.auth ? 1 : 0)) + (m.enc ? 1 : 0);
+			C.cost = 49.0 * nw * nw / 2;
+			Exchange ex = exs[xi];
+			bool pairs = !R->args.has("wsingle");
+			C.run = [m, ex, pairs](const Cell &c) { wenv_cell<AIO>(c, m, ex, pairs); };
+			cells.push_back(C);
+		}
+	}
+}
+
 // ------------------------------------------------------------------------------------------------ main
 int main(int argc, char **argv)
 {
@@ -913,6 +1120,7 @@ int main(int argc, char **argv)
 	signal(SIGPIPE, SIG_IGN);
 	mcenv::kdf_iter_clamp = 1;
 	SEED = mcenv::env_seed();
+	CLOCK0 = mcenv::vclock;
 	MuteCerr mute;
 	setup_pools();
 	init_values();
@@ -925,6 +1133,7 @@ int main(int argc, char **argv)
 	if (part == "frag" || part == "all") add_frag_cells<aiounicast_select>(MODES_SELECT, NS, thorough), add_frag_cells<aiounicast_nonblock>(MODES_NONBLOCK, NN, thorough);
 	if (part == "n3" || part == "all") add_n3_cells<aiounicast_select>(MODES_SELECT, NS, thorough), add_n3_cells<aiounicast_nonblock>(MODES_NONBLOCK, NN, thorough);
 	if (part == "fault" || part == "all") add_fault_cells<aiounicast_select>(MODES_SELECT, NS, thorough), add_fault_cells<aiounicast_nonblock>(MODES_NONBLOCK, NN, thorough);
+	if (part == "wenv" || part == "all") add_wenv_cells<aiounicast_select>(MODES_SELECT, NS, thorough), add_wenv_cells<aiounicast_nonblock>(MODES_NONBLOCK, NN, thorough);
 	if (part == "conf" || part == "all") add_conf_cells<aiounicast_select>(MODES_SELECT, NS), add_conf_cells<aiounicast_nonblock>(MODES_NONBLOCK, NN);
 
 	// deterministic longest-processing-time assignment of cells to shards (same in every shard)
@@ -960,6 +1169,7 @@ int main(int argc, char **argv)
 	for (size_t i = 0; i < cells.size(); i++) if (owner[i] == A.shard) R->counters["cells"]++;
 	R->bound = thorough ? "all single cuts and all pairs of cuts (max-size value: single cuts); faults at every offset of a 3-message wire"
 		: "all single cuts; pairs for 1-2 message exchanges; faults at every offset of a 2-message wire";
+	if (part == "wenv") R->bound = "every single and every ordered pair of write-environment deviations at every write call, exchanges of 1 and 2 integers";
 	R->finish();
 	return 0;
 }
